@@ -2,11 +2,12 @@ package streamsim
 
 import (
 	"bytes"
-	"fmt"
+	"encoding/base64"
 	"hash/fnv"
 	"io"
 	"net/http"
 	"path/filepath"
+	"regexp"
 	"runtime"
 	"sort"
 	"strings"
@@ -63,7 +64,7 @@ func validDoc(r *run, kind string) *simrt.SimFile {
 				}
 			}
 			if s.bodyFile >= 0 {
-				f.Write([]byte("@" + filepath.Join(sandbox, fmt.Sprintf("body%d.bin", s.bodyFile)) + "\n"))
+				f.Write([]byte("@" + filepath.Join(sandbox, bodyFileName(s.bodyFile)) + "\n"))
 			}
 			f.Write([]byte("\n"))
 		}
@@ -79,6 +80,8 @@ func validDoc(r *run, kind string) *simrt.SimFile {
 	}
 	return f
 }
+
+var b64Run = regexp.MustCompile(`[A-Za-z0-9+/]{8,}={0,2}`)
 
 func segments(f *simrt.SimFile) [][]byte {
 	var segs [][]byte
@@ -150,6 +153,53 @@ func mutate(r *run, f *simrt.SimFile, other *simrt.SimFile) []byte {
 			r.stats["fault.emptied-field"]++
 		}
 	}
+	if t.Prob(1, 4) {
+		// damage below the transport encoding: one base64 run (a body or a header block) is decoded, damaged and
+		// encoded again, as a foreign or faulty producer of the documented layout would write it
+		if locs := b64Run.FindAllIndex(data, 64); len(locs) > 0 {
+			loc := locs[t.Choose(len(locs))]
+			if raw, err := base64.StdEncoding.DecodeString(string(data[loc[0]:loc[1]])); err == nil && len(raw) > 0 {
+				i := t.Choose(len(raw))
+				switch t.Choose(6) {
+				case 0: // a short range deleted
+					j := i + 1 + t.Choose(4)
+					if j > len(raw) {
+						j = len(raw)
+					}
+					raw = append(raw[:i:i], raw[j:]...)
+				case 1: // cut short
+					raw = raw[:i]
+				case 2: // one byte replaced by a structural one
+					raw[i] = []byte{':', '\r', '\n', ' ', 0, '"', ','}[t.Choose(7)]
+				case 3: // a structural token inserted
+					tok := []string{":", "\r\n", "\n", " ", "\t", ": ", "\r\n\r\n"}[t.Choose(7)]
+					raw = append(raw[:i:i], append([]byte(tok), raw[i:]...)...)
+				case 4, 5: // one line of the content keeps its key only, or its value only (the separator goes with the lost part or stays)
+					lines := bytes.SplitAfter(raw, []byte("\n"))
+					li := t.Choose(len(lines))
+					l := lines[li]
+					if c := bytes.IndexByte(l, ':'); c >= 0 {
+						end := len(bytes.TrimRight(l, "\r\n"))
+						switch t.Choose(4) {
+						case 0:
+							l = append(l[:c+1:c+1], l[end:]...) // "Key:"
+						case 1:
+							l = append(l[:c:c], l[end:]...) // "Key"
+						case 2:
+							l = l[c:] // ": value"
+						case 3:
+							l = l[c+1:] // " value"
+						}
+						lines[li] = l
+						raw = bytes.Join(lines, nil)
+					}
+				}
+				enc := base64.StdEncoding.EncodeToString(raw)
+				data = append(data[:loc[0]:loc[0]], append([]byte(enc), data[loc[1]:]...)...)
+				r.stats["fault.damaged-encoded-content"]++
+			}
+		}
+	}
 	m := t.Choose(4)
 	for k := 0; k < m && len(data) > 0; k++ {
 		switch t.Choose(5) {
@@ -192,7 +242,7 @@ func confine(data []byte) []byte {
 		if tr := strings.TrimSpace(l); strings.HasPrefix(tr, "@") {
 			h := fnv.New32a()
 			h.Write([]byte(tr))
-			lines[i] = "@" + filepath.Join(sandbox, fmt.Sprintf("body%d.bin", h.Sum32()%7)) // body5, body6 do not exist
+			lines[i] = "@" + filepath.Join(sandbox, bodyFileName(int(h.Sum32()%8))) // body6.bin, body7.bin do not exist
 		}
 	}
 	return []byte(strings.Join(lines, "\n"))
